@@ -9,6 +9,7 @@ import (
 	"time"
 
 	"github.com/uhppoted/uhppote-core/types"
+	"github.com/uhppoted/uhppote-core/uhppote"
 
 	"verif/harness/adapter"
 	"verif/harness/farm"
@@ -88,6 +89,66 @@ func c06(c *Ctx) {
 	c06Loopback(c)
 }
 
+// c06History makes 0..3 earlier calls on the client that is about to make the judged call (SetAddress with another
+// endpoint's IP address, ordinary operations, discovery): where a request goes is a function of the configuration
+// the client was built with and of the current call only. prepare() is told which operation comes next so that
+// the farm / the scripted driver can answer it.
+func c06History(r gen.R, u uhppote.IUHPPOTE, cfg ClientCfg, serial uint32, otherIPs [][4]byte, allowDiscovery bool, prepare func(op *rm.Op, serial uint32, a rm.Vals)) []string {
+	hist := []string{}
+	n := 0
+	if r.Chance(0.45) {
+		n = 1 + r.Pick(3)
+	}
+	for h := 0; h < n; h++ {
+		target := serial
+		if len(cfg.Devices) > 0 && r.Chance(0.4) {
+			target = cfg.Devices[r.Pick(len(cfg.Devices))].ID
+		}
+		switch x := r.Pick(10); {
+		case x < 5:
+			ip := otherIPs[r.Pick(len(otherIPs))]
+			op := rm.FindOp("SetAddress")
+			a := rm.Vals{"Address": rm.IPVal(ip[0], ip[1], ip[2], ip[3]), "Mask": rm.IPVal(255, 255, 255, 0), "Gateway": rm.IPVal(ip[0], ip[1], ip[2], 1)}
+			prepare(op, target, a)
+			adapter.SafeCall(u, "SetAddress", target, a, adapter.Aux{})
+			hist = append(hist, fmt.Sprintf("SetAddress(%d, %d.%d.%d.%d)", target, ip[0], ip[1], ip[2], ip[3]))
+		case x < 9 || !allowDiscovery:
+			ops := replyOps()
+			op := ops[r.Pick(len(ops))]
+			a, p := r.Args(op)
+			aux := toAux(p)
+			fixArgs(op, a, aux)
+			prepare(op, target, a)
+			adapter.SafeCall(u, op.Name, target, a, aux)
+			hist = append(hist, fmt.Sprintf("%s(%d)", op.Name, target))
+		default:
+			prepare(rm.FindOp("GetDevices"), 0, nil)
+			u.GetDevices()
+			hist = append(hist, "GetDevices()")
+		}
+	}
+	return hist
+}
+
+// c06Noise: datagrams a correct client ignores (broadcast path) that the farm sends ahead of the valid reply -
+// another controller answering the same broadcast, a runt. They must not make the client send anything again.
+func c06Noise(r gen.R, reply []byte) [][]byte {
+	out := [][]byte{}
+	if reply == nil || !r.Chance(0.35) {
+		return out
+	}
+	for k := 0; k < 1+r.Pick(2); k++ {
+		b := append([]byte{}, reply...)
+		if r.Chance(0.6) {
+			b[5] ^= 0x55 // another controller's serial number
+		} else {
+			b = b[:1+r.Pick(63)]
+		}
+		out = append(out, b)
+	}
+	return out
+}
+
 type c06Dev struct {
 	state string // none | zero | unspecified | port0 | valid
 	proto string
@@ -130,18 +191,33 @@ func c06Hook(c *Ctx) {
 		aux := toAux(p)
 		fixArgs(op, a, aux)
 		reply := validReply(r, op, serial, a)
+		var scripted []byte
 		d.Script = func(adapter.Invocation) ([][]byte, error) {
-			if op.Discovery {
+			if scripted == nil {
 				return nil, nil
 			}
-			return [][]byte{reply}, nil
+			return [][]byte{scripted}, nil
+		}
+		hist := c06History(r, u, cfg, serial, [][4]byte{{10, 9, 8, 7}, {192, 168, 1, 1}, {127, 0, 0, 1}}, true, func(hop *rm.Op, hs uint32, ha rm.Vals) {
+			scripted = nil
+			if !hop.Discovery && !hop.NoReply {
+				scripted = validReply(r, hop, hs, ha)
+			}
+		})
+		before := len(d.Invocations())
+		scripted = nil
+		if !op.Discovery {
+			scripted = reply
 		}
 		if op.Discovery {
 			u.GetDevices()
 		} else {
 			adapter.SafeCall(u, op.Name, serial, a, aux)
 		}
-		inv := d.Invocations()
+		inv := d.Invocations()[before:]
+		if len(hist) > 0 {
+			c.Res.Count("hook:cases-with-earlier-calls-on-the-client", 1)
+		}
 		c.Res.Eval(1)
 		c.Res.DistinctKey("hook", op.Name, dv.state, dv.proto, dv.newd, bset)
 		wantM, wantA := refRoute(cfg, serial)
@@ -152,7 +228,7 @@ func c06Hook(c *Ctx) {
 				wantA = cfg.Broadcast
 			}
 		}
-		w := map[string]any{"layer": "hook", "op": op.Name, "config": fmt.Sprintf("%+v", cfg), "controller": dv.state, "protocol": dv.proto, "newdevice": dv.newd}
+		w := map[string]any{"layer": "hook", "op": op.Name, "config": fmt.Sprintf("%+v", cfg), "controller": dv.state, "protocol": dv.proto, "newdevice": dv.newd, "earlier_calls_on_this_client": hist}
 		key := fmt.Sprintf("C06:hook:%s:%s", dv.state, wantM)
 		if !bset && wantM != "SendUDP" && wantM != "SendTCP" {
 			key = "C06:default-broadcast-address"
@@ -194,6 +270,7 @@ func c06Loopback(c *Ctx) {
 				serial uint32
 				args   rm.Vals
 				reply  []byte
+				noise  [][]byte
 			}
 			f.fm.SetScript(func(ep *farm.Endpoint, src net.Addr, req []byte, seq uint64) []farm.Action {
 				cur.Lock()
@@ -201,10 +278,13 @@ func c06Loopback(c *Ctx) {
 				if cur.op == nil || cur.op.NoReply || len(req) != 64 {
 					return nil
 				}
-				if cur.op.Discovery {
-					return []farm.Action{{Data: cur.reply}}
+				out := []farm.Action{}
+				if ep.Proto == "udp" {
+					for _, b := range cur.noise {
+						out = append(out, farm.Action{Data: b})
+					}
 				}
-				return []farm.Action{{Data: cur.reply}}
+				return append(out, farm.Action{Data: cur.reply})
 			})
 			for i := 0; i < N; i++ {
 				caseNo := int64(w*N + i)
@@ -254,6 +334,32 @@ func c06Loopback(c *Ctx) {
 				aux := toAux(p)
 				fixArgs(op, a, aux)
 				u := mkClient(cfg)
+				total := func() int64 {
+					var n int64
+					for _, ep := range f.fm.Endpoints {
+						n += ep.Recv.Load()
+					}
+					return n
+				}
+				hist := c06History(r, u, cfg, serial, [][4]byte{{127, 0, 0, 2}, {127, 0, 0, 9}, {10, 9, 8, 7}}, i%40 == 7, func(hop *rm.Op, hs uint32, ha rm.Vals) {
+					cur.Lock()
+					cur.op, cur.serial, cur.args, cur.noise = hop, hs, ha, nil
+					cur.reply = validReply(r, hop, hs+map[bool]uint32{true: 77, false: 0}[hop.Discovery], ha)
+					cur.Unlock()
+				})
+				if len(hist) > 0 {
+					// let the farm see (and answer) everything the earlier calls sent before the judged call starts
+					for q, last := 0, int64(-1); q < 100; q++ {
+						time.Sleep(2 * time.Millisecond)
+						if t := total(); t == last {
+							break
+						} else {
+							last = t
+						}
+					}
+					f.fm.WaitIdle(2 * time.Second)
+					c.Res.Count("loopback:cases-with-earlier-calls-on-the-client", 1)
+				}
 				cur.Lock()
 				cur.op, cur.serial, cur.args = op, serial, a
 				if op.Discovery {
@@ -261,12 +367,14 @@ func c06Loopback(c *Ctx) {
 				} else {
 					cur.reply = validReply(r, op, serial, a)
 				}
+				cur.noise = c06Noise(r, cur.reply)
+				nNoise := len(cur.noise)
 				cur.Unlock()
-				f.fm.ResetLog()
-				var recvBefore int64
-				for _, ep := range f.fm.Endpoints {
-					recvBefore += ep.Recv.Load()
+				if nNoise > 0 {
+					c.Res.Count("loopback:cases-with-stray-datagrams-before-the-reply", 1)
 				}
+				f.fm.ResetLog()
+				recvBefore := total()
 				var out rm.Outcome
 				start := time.Now()
 				if op.Discovery {
@@ -278,13 +386,6 @@ func c06Loopback(c *Ctx) {
 				}
 				elapsed := time.Since(start)
 				// quiescence: wait (bounded) until the request has been logged, then a little longer for stray duplicates
-				total := func() int64 {
-					var n int64
-					for _, ep := range f.fm.Endpoints {
-						n += ep.Recv.Load()
-					}
-					return n
-				}
 				for k := 0; k < 500 && total() == recvBefore; k++ {
 					time.Sleep(2 * time.Millisecond)
 				}
@@ -325,7 +426,7 @@ func c06Loopback(c *Ctx) {
 					desc = append(desc, fmt.Sprintf("%s endpoint %s from %s (%d bytes)", e.Proto, f.fm.Endpoints[e.Endpoint].Addr, e.Src, len(e.Data)))
 				}
 				wv := map[string]any{"layer": "loopback", "op": op.Name, "config": fmt.Sprintf("%+v", cfg), "controller": dv.state, "protocol": dv.proto, "bind": cfg.Bind,
-					"expected": fmt.Sprintf("%s %s", wantProto, wantEP.Addr), "arrivals": desc, "err": out.Err, "elapsed_ms": elapsed.Milliseconds()}
+					"expected": fmt.Sprintf("%s %s", wantProto, wantEP.Addr), "arrivals": desc, "err": out.Err, "elapsed_ms": elapsed.Milliseconds(), "earlier_calls_on_this_client": hist, "stray_datagrams_before_reply": nNoise}
 				key := fmt.Sprintf("C06:loopback:%s:%s", dv.state, wantProto)
 				if len(recvs) == 0 && (strings.Contains(out.Err, "address already in use") || strings.Contains(out.Err, "cannot assign requested address")) {
 					c.Res.Inconcl("bind collision on a 'fixed' port: " + out.Err)
